@@ -1,21 +1,44 @@
 """C09 — a render depends only on its inputs, never on earlier or concurrent renders.
 
-Tie: histories of {CreateEnv, SetGlobal, SetFilter, AdvanceClock, FromString,
-GetTemplate, Render (with a fault at the k-th data access / k-th loader call),
-QuickRender (liquid2.render on DEFAULT_ENVIRONMENT), Analyze} are run on real,
-shared Environment / Template / loader objects of the repository under a
-harness-controlled clock, and on the Coq model Kernels/Session.v (`run`).  Per
-step the observation (canonical output text, error class, handle, analysed
-names) and the content of every loader cache (keys and the globals bound to
-the shared Template objects) are compared.
+Tie: histories of {CreateEnv, SetGlobal, SetFilter, AdvanceClock, FromString
+(valid, or failing to parse at some nesting depth), GetTemplate, Render (with a
+fault at the k-th data access / k-th loader call), QuickRender (liquid2.render
+on DEFAULT_ENVIRONMENT), Analyze} are run on real, shared Environment / Template
+/ loader objects of the repository under a harness-controlled clock, and on the
+Coq model Kernels/Session.v (`run`).  Per step the observation (output text,
+error class, handle, analysed names) and the content of every loader cache
+(keys and the globals bound to the shared Template objects) are compared.
 
-Direct oracle (failing-input search), per step:
-  * fresh replay  — the same call on freshly built objects, obtained by
-    replaying only the creation / configuration / clock steps of the prefix
-    (every earlier render, failed render and analysis left out);
-  * isolated replay — additionally everything that concerns another
-    Environment left out (the environment and its templates renumbered).
-The step's observation must equal both.
+Direct oracles (failing-input search):
+  * fresh replay (in process) — the same call on freshly built objects: the
+    prefix replayed without any render, failed render or analysis;
+  * pristine minimal replay — the same call in a PROCESS that has imported
+    liquid2 but never parsed or rendered anything (a child forked from a server
+    that was itself forked before this process touched a template), with only
+    the step's own environment and template built (other templates, failed
+    from_string calls, other environments left out);
+  * pristine history — whole histories re-run in such a process, step
+    observations equal;
+  * no trace — around EVERY step (successful or failed) a snapshot of every
+    mutable container / object / lru_cache held by liquid2's modules and
+    classes, of vars() of every Environment, its Parser and its Tag objects, and
+    of every Template (AST included): anything that changes and is not the
+    modelled session state (loader caches, the configured register, the new
+    Template, re-bound globals of a cached template) is a finding;
+  * a printed date is the clock's current date;
+  * edited partials — templates on disk behind CachingFileSystemLoader(
+    auto_reload=True), partials reached through include / render / extends /
+    call, edited (or broken, or deleted) between renders of the same Template
+    object and of re-fetched ones, sync and async: equal to a new Environment
+    with a plain FileSystemLoader on the same files (in process, in a pristine
+    process, and as computed by the model);
+  * constructs outside the model (if / case / with / liquid / nested
+    render-call-include-extends ...) and ~20 sources that fail to lex or parse at
+    several depths, shuffled on two shared Environments: equal to a new
+    Environment in a pristine process, and no trace.
+
+Histories are generated (against live objects) in a child process, so the
+checking process has parsed nothing when the checked runs start.
 """
 
 from __future__ import annotations
@@ -668,6 +691,16 @@ def _read_msg(fd: int) -> Any:
 def _handle(req: tuple) -> Any:
     if req[0] == "replay":
         return replay_then(req[1], req[2])
+    if req[0] == "generate":
+        r = C.rng("c09")
+        thorough = req[1]
+        hist = list(corpus())
+        hist += fault_sweeps(r, 60 if thorough else 8)
+        for _ in range(2500 if thorough else 260):
+            hist.append(gen_history(r, 10 if thorough else 6))
+        return hist
+    if req[0] == "rawrender":
+        return raw_fresh(*req[1:])
     if req[0] == "trace":
         return [(s["obs"], s["trace"]) for s in run_history(req[1], trace=True, process=True)]
     if req[0] == "fsrender":
@@ -1487,6 +1520,108 @@ def fs_case(step: dict[str, Any]) -> tuple[list[tuple], list[dict[str, Any]]]:
     return ops, [{"obs": o, "snap": [[], []]} for o in exp]
 
 
+# ---------------------------------------------------------------- constructs outside the model (oracle only)
+
+RAW_PARTIALS = {
+    "part": "P({{ v }}{% increment pc %})",
+    "blk": "{% block inner %}i{{ v }}{% endblock %}",
+    "base2": "<{% block a %}A{% endblock %}|{% block z %}Z{{ v }}{% endblock %}>",
+    "kid": "{% extends 'base2' %}{% block a %}a{{ block.super }}{% render 'part', v: 'k' %}{% endblock %}",
+    "loop": "{% for i in (1..2) %}{% include 'part' %}{% endfor %}",
+}
+
+RAW_SOURCES: list[str] = [
+    # valid, moderately nested, beyond the program language of the model
+    "{% if v %}{% for i in (1..3) %}{% case i %}{% when 1 %}a{% when 2 %}{% continue %}{% else %}c{% endcase %}{% endfor %}{% else %}n{% endif %}",
+    "{% macro m a, b: 2 %}[{{ a }}{{ b }}{% render 'part', v: a %}]{% endmacro %}{% call m 1 %}{% call m 'x', b: 3 %}{% render 'part' %}",
+    "{% call nope %}{% macro k %}{% render 'kid' %}{% endmacro %}{% call k %}{% render 'kid' %}{% include 'blk' %}",
+    "{% render 'blk' %}{% render 'kid' %}{% include 'kid' %}{% render 'loop' %}",
+    "{% with a: 1, b: v %}{{ a }}{{ b }}{% unless a == 2 %}u{% endunless %}{% endwith %}{{ a }}",
+    "{% liquid\n assign q = v | upcase\n echo q\n if q\n  echo 'y'\n endif %}{% raw %}{{ r }}{% endraw %}{# c #}{% comment %}x{% endcomment %}",
+    "{% for i in arr limit: 2 %}{{ forloop.index }}{% cycle 'x', 'y' %}{% endfor %}{% for i in arr offset: continue %}{{ i }}{% else %}e{% endfor %}",
+    "{% for i in arr %}{% for j in arr %}{{ forloop.parentloop.index }}{% break %}{% endfor %}{% endfor %}",
+    "{% capture c %}{% include 'part' %}{% render 'part', v: 1 %}{% endcapture %}{{ c | size }}{{ c }}{{ arr | join: ',' | append: v }}",
+    "{{ v | default: 'd' | upcase }}{{ arr | map: 'x' | compact | size }}{{ 'a,b' | split: ',' | last }}{{ 5 | minus: 2 | times: 3 }}",
+    "{% translate x: v %}T {{ x }}{% endtranslate %}{{ 'm' | t }}",
+    "{% assign z = arr | first %}{% increment z %}{% decrement z %}{{ z }}",
+    "{% extends 'base2' %}{% block z %}{% macro m a %}{{ a }}{% endmacro %}{% call m v %}{{ block.super }}{% endblock %}",
+    "{% include 'nope' %}", "{% render 'part' %}{{ 1 | divided_by: 0 }}", "{% for i in (1..3) %}{% render 'kid' %}{{ i | nosuch }}{% endfor %}",
+    # from_string that fails: lexer and parser errors at several nesting depths
+    "{{ 'abc }}", "{% if v %}{% for i in arr %}{{ i | }}{% endfor %}{% endif %}", "{% if v %}{% for i in arr %}{% capture c %}{% endfor %}",
+    "{% macro m a %}{% block b %}{% if %}{% endif %}{% endblock %}{% endmacro %}", "{% for i in arr %}{% case i %}{% when %}{% endcase %}{% endfor %}",
+    "{% if v %}{% unless v %}{% with a: %}{% endwith %}{% endunless %}{% endif %}", "{% block a %}{% block b %}{% endblock a %}{% endblock %}",
+    "{% if v %}{% else %}{% else %}{% endif %}{% endfor %}", "{% liquid\n if v\n  for i in arr\n   echo i |\n  endfor\n endif %}", "{% raw %}{{", "{% comment %}", "{{ v", "{% for i in (1..) %}{% endfor %}",
+    "{% capture %}x{% endcapture %}", "{% extends %}", "{% call %}", "{% macro m a b %}{% endmacro %}", "{% translate %}{% if v %}{% endif %}{% endtranslate %}",
+]
+
+
+def _raw_env(kind: int) -> Any:
+    import liquid2
+
+    ld = liquid2.DictLoader(dict(RAW_PARTIALS)) if kind == 0 else liquid2.CachingDictLoader(dict(RAW_PARTIALS))
+    return liquid2.Environment(loader=ld, auto_escape=(kind == 1), globals={"g": "G"})
+
+
+RAW_DATA = {"v": "<b>", "arr": ["p", "q", "r"]}
+
+
+def _raw_once(env: Any, src: str, is_async: bool, loop: asyncio.AbstractEventLoop) -> tuple:
+    try:
+        t = env.from_string(src)
+    except Exception as e:  # noqa: BLE001
+        return ("parse",) + exc_obs(e)
+    return _call(loop, lambda: t.render(**RAW_DATA), lambda: t.render_async(**RAW_DATA), is_async)
+
+
+def raw_fresh(kind: int, src: str, is_async: bool) -> tuple:
+    loop = asyncio.new_event_loop()
+    try:
+        CLOCK.k = 0
+        return _raw_once(_raw_env(kind), src, is_async, loop)
+    finally:
+        loop.close()
+
+
+def raw_stream(chk: C.Check, pristine: "Pristine", r: Any, rounds: int) -> tuple[int, int]:
+    """Real templates with constructs the model does not have (if / case / with /
+    liquid / nested render-call-include-extends ...) and many sources that fail
+    to parse, all on two shared Environments: every from_string / render is
+    compared with the same call in a pristine process on a new Environment, and
+    snapshotted ("no trace")."""
+    loop = asyncio.new_event_loop()
+    n = n_fail = 0
+    try:
+        w = World(loop)
+        w.envs += [_raw_env(0), _raw_env(1)]
+        w.caching += [False, False]          # the caches are not part of the snapshot either way
+        for _ in range(rounds):
+            order = list(RAW_SOURCES)
+            r.shuffle(order)
+            for src in order:
+                kind = r.randrange(2)
+                is_async = r.random() < 0.4
+                before = world_state(w, True)
+                got = _raw_once(w.envs[1 + kind], src, is_async, loop)
+                after = world_state(w, True)
+                n += 1
+                n_fail += got[0] == "parse"
+                changed = [p for p in sorted(set(before) | set(after)) if before.get(p) != after.get(p)]
+                exp = pristine.call(("rawrender", kind, src, is_async))
+                if changed:
+                    chk.finding("no-trace:" + _path_kind(changed[0]),
+                                f"from_string + render of {src!r} (observed {got[:3]}) changed {changed[:6]}",
+                                {"source": src, "environment_kind": kind, "changed": changed, "partials": RAW_PARTIALS})
+                if exp != got:
+                    chk.finding("pristine-raw:" + f"{got[0]}-vs-{exp[0] if isinstance(exp, tuple) else exp}",
+                                f"{src!r} on a shared Environment gives {got}; on a new Environment in a process that never parsed or "
+                                f"rendered anything it gives {exp}",
+                                {"source": src, "environment_kind": kind, "async": is_async, "shared": got, "pristine": exp,
+                                 "partials": RAW_PARTIALS, "data": RAW_DATA})
+        return n, n_fail
+    finally:
+        loop.close()
+
+
 # ---------------------------------------------------------------- classification
 
 
@@ -1548,12 +1683,13 @@ def _path_kind(p: str) -> str:
 
 def _main(chk: C.Check, pristine: Pristine) -> None:
     thorough = chk.tier == "thorough"
-    r = C.rng("c09")
+    r = C.rng("c09-streams")
     maxlen = 10 if thorough else 6
-    hist: list[list[tuple]] = list(corpus())
-    hist += fault_sweeps(r, 60 if thorough else 8)
-    for _ in range(4000 if thorough else 260):
-        hist.append(gen_history(r, maxlen))
+    # histories are generated against live objects: in a child process, so that this
+    # process has still parsed and rendered nothing when the checked runs start
+    hist = pristine.call(("generate", thorough))
+    if not isinstance(hist, list):
+        raise RuntimeError(f"history generation failed: {hist}")
 
     items = []
     nontrivial: set[str] = set()
@@ -1677,6 +1813,10 @@ def _main(chk: C.Check, pristine: Pristine) -> None:
             case, model = c_case(ops_m, exp_m)
             items.append({"case": case, "model": model,
                           "replay": {"fs_render": st["name"], "files": srcs, "implementation": st["obs"]}})
+    n_raw, n_raw_fail = raw_stream(chk, pristine, r, 8 if thorough else 3)
+    n_pristine += n_raw
+    dist["raw-sources-run"] = n_raw
+    dist["raw-from_string-failures"] = n_raw_fail
     dist["fs-renders"] = n_fs
     dist["fs-renders-showing-an-edit"] = n_fs_edits_seen
     dist["steps-traced"] = n_traced
@@ -1693,7 +1833,9 @@ def _main(chk: C.Check, pristine: Pristine) -> None:
                  "{CreateEnv(auto_escape, caching loader, removed tags, loader contents, globals), SetGlobal, SetFilter, AdvanceClock, "
                  "FromString/parse, GetTemplate(_async), Render(_async) with faults at the k-th drop access / k-th loader call, "
                  "liquid2.render(_async) on DEFAULT_ENVIRONMENT, analyze(_async)}; programs exercise increment/decrement, cycle, "
-                 "for offset: continue, assign, capture, macro/call, extends/block, include, translate, now/today/'now'|date. "
+                 "for offset: continue, assign, capture, macro/call, extends/block, include, render, translate, now/today/'now'|date, "
+                 "malformed tags at any nesting depth (from_string fails); plus the edited-partials stream on a CachingFileSystemLoader "
+                 "and the oracle-only stream of constructs outside the model. "
                  "non-trivial = the history rendered an object again, rendered after a failed render on the same environment, "
                  "advanced the clock between two renders of one object, configured another environment first, or rendered a shared cached template"
                  % maxlen),
@@ -1703,7 +1845,12 @@ def _main(chk: C.Check, pristine: Pristine) -> None:
         "tier_proved": "kernel (session state machine + per-render context of the program language)",
     })
     chk.assumptions += [
-        "loader contents and tag registers are fixed when an Environment is created; caches never evict or reload (C14 covers those)",
+        "model: loader contents and tag registers are fixed when an Environment is created; caches never evict or reload (C14 covers those); "
+        "edits of partials behind an auto-reloading file-system loader are tied by the oracle 'equals fresh objects on the current files' "
+        "(and the model's answer for those fresh objects), not by a theorem",
+        "the no-trace snapshot sees containers / liquid2 objects / lru_caches reachable from module globals, class attributes, "
+        "Environment, Parser, Tag and Template objects to a bounded depth; state hidden in closures or C extensions is only caught "
+        "behaviourally (pristine-process replays)",
         "resource limits off; names args/kwargs/block/forloop/translations/size/first/last not used as variables; ASCII text",
         "the clock is the harness' patched datetime in liquid2.context and liquid2.builtin.filters.misc; tick k is 2001-01-01 12:00:00 + k days and the model prints it exactly (k < 31)",
         "sync and async renders are run through the same model step (their equality is C03's theorem)",
